@@ -163,7 +163,7 @@ func checkC17(c *Ctx) {
 					assign(x.Edges[k], pred)
 				}
 			case *ssa.Return:
-				for _, r := range x.Results {
+				for _, r := range returnedValues(x) {
 					if _, isSig := r.Type().Underlying().(*types.Signature); isSig {
 						if _, isPhi := r.(*ssa.Phi); !isPhi {
 							assign(r, b)
@@ -333,7 +333,7 @@ func checkC17(c *Ctx) {
 						pick(e)
 					}
 				case *ssa.Return:
-					for _, r := range x.Results {
+					for _, r := range returnedValues(x) {
 						pick(r)
 					}
 				}
@@ -1019,7 +1019,7 @@ func (p *Prog) errorSources(fn *ssa.Function, idx, depth int) (concrete map[stri
 	}
 	eachInstr(fn, func(_ *ssa.BasicBlock, _ int, in ssa.Instruction) {
 		if r, ok := in.(*ssa.Return); ok && idx < len(r.Results) {
-			walk(r.Results[idx], depth)
+			walk(returnedValues(r)[idx], depth)
 		}
 	})
 	return
@@ -1228,7 +1228,7 @@ func checkReaderTypeAgnostic(c *Ctx, rule string) {
 			if len(s.Preds) != 1 {
 				continue
 			}
-			if ret, ok := s.Instrs[len(s.Instrs)-1].(*ssa.Return); ok && len(ret.Results) == 2 && !isNilConst(ret.Results[1]) {
+			if ret, ok := s.Instrs[len(s.Instrs)-1].(*ssa.Return); ok && len(ret.Results) == 2 && !isNilConst(returnedValues(ret)[1]) {
 				rejects = true
 			}
 		}
